@@ -86,7 +86,7 @@ theorem needE_le_depth (e : Expr) (hr : renderableE e = true) : needE e ≤ (exp
     simp only [needE, exprToJ, J.depth, J.depthKV]; omega
   | like e p =>
     simp only [renderableE, Bool.and_eq_true] at hr
-    have := needE_le_depth e hr.1.1
+    have := needE_le_depth e hr.1
     simp only [needE, exprToJ, J.depth, J.depthKV]; omega
   | is e ty =>
     simp only [renderableE] at hr
